@@ -80,3 +80,89 @@ Lemma example_roundtrip :
   print (canon example_ast) = print example_ast /\
   canon example_ast <> example_ast.
 Proof. vm_compute. repeat split; try reflexivity. discriminate. Qed.
+
+(* ---- the character level: [tokenize (print a) = toks a] and the property on the model ---- *)
+From Aldrin Require Import Schema.LexerProofs Schema.PrintLex Schema.PrintLexProofs.
+
+(* the property itself, on the model, at the character level: re-parsing the formatted text gives
+   the same schema (imports sorted) *)
+Lemma format_preserves : forall a, wf_ast a -> printable a ->
+  parse_toks (tokenize (print a)) = Some (canon a).
+Proof. intros a Hwf Hp. rewrite print_tokens by assumption. now apply parse_toks_toks. Qed.
+
+(* ... and formatting the re-parsed text again gives the same text *)
+Lemma format_idempotent_chars : forall a, wf_ast a -> printable a ->
+  option_map print (parse_toks (tokenize (print a))) = Some (print a).
+Proof.
+  intros a Hwf Hp. rewrite format_preserves by assumption. cbn [option_map]. now rewrite print_canon.
+Qed.
+
+(* the formatted text of a printable schema is again printable: the side condition is stable *)
+Lemma printable_canon : forall a, printable a -> printable (canon a).
+Proof.
+  intros a [Hc [Hd [Hi Hdf]]]. unfold printable, canon. cbn [s_comment s_doc s_imports s_defs].
+  repeat split; try assumption.
+  eapply Permutation_Forall; [|exact Hi]. apply Permutation_sym, sort_imports_perm.
+Qed.
+
+(* what the leaf conditions mean: each leaf, on its own, is one token of its kind *)
+Lemma leaf_conditions :
+  (forall w, ident_ok w = true -> tokenize w = [TWord w true]) /\
+  (forall d, int_ok d = true -> tokenize d = [TInt d]) /\
+  (forall v, str_ok v = true -> tokenize v = [TStr v]) /\
+  (forall v, uuid_ok v = true -> tokenize v = [TUuid v]) /\
+  (forall s, text_ok s = true -> tokenize ("//" ++ line_body s ++ LF) = [TComment s]).
+Proof.
+  repeat split.
+  - exact ident_ok_spec.
+  - intros d H. rewrite <- (append_nil_r d) at 1. now rewrite tk_int by (assumption || exact I).
+  - intros v H. rewrite <- (append_nil_r v) at 1. now rewrite tk_str.
+  - intros v H. rewrite <- (append_nil_r v) at 1. now rewrite tk_uuid.
+  - intros s H. rewrite <- (append_nil_r LF). now rewrite tk_comment_line.
+Qed.
+
+Lemma example_printable : printable example_ast.
+Proof.
+  unfold printable, example_ast. cbn [s_comment s_doc s_imports s_defs].
+  repeat (first [ split | constructor | reflexivity ]).
+Qed.
+
+(* identifiers outside ASCII that the model lexer classifies are covered *)
+Definition nonascii_ast : schema :=
+  {| s_comment := []; s_doc := []; s_imports := [];
+     s_defs := [DConst {| cd_comment := ["caf" ++ String (Ascii.ascii_of_nat 195) (String (Ascii.ascii_of_nat 169) "")];
+                          cd_doc := []; cd_name := String (Ascii.ascii_of_nat 206) (String (Ascii.ascii_of_nat 187) "x1");
+                          cd_ty := CI8; cd_val := "-12" |}] |}.
+
+Lemma nonascii_printable : printable nonascii_ast.
+Proof.
+  unfold printable, nonascii_ast. cbn [s_comment s_doc s_imports s_defs].
+  repeat (first [ split | constructor | reflexivity ]).
+Qed.
+
+(* ---- for every source text: what the parser produces is printable, so the character-level
+   round trip needs no side condition but the field-name one ---- *)
+From Aldrin Require Import Schema.ReachProofs Schema.PrintLexReach.
+
+Lemma format_roundtrip : forall src a,
+  parse_toks (tokenize src) = Some a -> no_bare_required a ->
+  parse_toks (tokenize (print a)) = Some (canon a) /\
+  option_map print (parse_toks (tokenize (print a))) = Some (print a).
+Proof.
+  intros src a H Hn. pose proof (parse_printable src a H) as Hp.
+  assert (E : parse_toks (tokenize (print a)) = Some (canon a)).
+  { rewrite print_tokens by assumption. eapply parse_toks_reachable; eassumption. }
+  split; [exact E|]. rewrite E. cbn [option_map]. now rewrite print_canon.
+Qed.
+
+(* formatting is a fixpoint after one step: the formatted text, taken as a source, parses to a
+   schema whose formatted text is the same text *)
+Lemma format_fixpoint : forall src a,
+  parse_toks (tokenize src) = Some a -> no_bare_required a ->
+  exists a', parse_toks (tokenize (print a)) = Some a' /\ print a' = print a /\
+             printable a' /\ canon a' = a'.
+Proof.
+  intros src a H Hn. destruct (format_roundtrip src a H Hn) as [E _].
+  exists (canon a). split; [exact E|]. split; [apply print_canon|]. split; [|apply canon_idem].
+  apply printable_canon. eapply parse_printable; eassumption.
+Qed.
